@@ -9,7 +9,7 @@ ASSUMPTIONS = [
     'positivity: for ALL coefficients only the necessary condition A_ii > 0 is decided; strict definiteness <Ax,x> > 0 is decided as one query on the smallest grid with small-rational numeric coefficient sets (12-16 unknowns)',
 ]
 OUTSIDE = ['strict definiteness as a single query beyond 16 unknowns', 'shapes other than listed', 'rounding']
-BOUNDS = {'quick': 'symmetry: (5,4,2) (6,4,3) (7,8,3) (9,8,auto) x both modes x both strategies; definiteness: (5,4,2) Dirichlet (12 unknowns); line blocks (5,4,2) (7,8,3)',
+BOUNDS = {'quick': 'symmetry: (5,4,2) (6,4,3) (7,8,3) (9,8,auto) x both modes x both strategies; definiteness: (5,4,2) Dirichlet (12 unknowns) and across the origin (16 unknowns, 2 coefficient variants); line blocks (5,4,2) (7,8,3)',
           'thorough': 'symmetry and line blocks on nr 5..9 x ntheta {4,8,12}; definiteness also across the origin (16 unknowns) and 3 coefficient variants'}
 
 
@@ -27,8 +27,8 @@ def jobs(tier, seed):
     for strat in (0, 1):
         J.append(dict(entry='h_definite', args=[5, 4, 2, 1, strat, strat], label=f'definite 5x4 dirbc strategy={strat}', cls='definite', reach=['form-built'], eager=False,
                       cap_quick=240, witness=False))
-    if not q:
-        for v in (0, 1, 2):
+    if True:   # across the origin: 16 unknowns, ~10 s each
+        for v in ((0, 1, 2) if not q else (0, 1)):
             J.append(dict(entry='h_definite', args=[5, 4, 2, 0, v % 2, v], label=f'definite 5x4 across-origin variant={v}', cls='definite', reach=['form-built'], eager=False, witness=False))
     for (nr, nt, nC) in ([(5, 4, 2), (7, 8, 3), (7, 12, 3)] if q else [(5, 4, 2), (6, 4, 3), (7, 8, 3), (8, 8, 4), (9, 8, -1), (7, 12, 3)]):
         for dirbc in (0, 1):
